@@ -21,7 +21,7 @@
     * `int32_t transpose` is kept as its 32 raw bits;
     * `"%u"` of `sscanf` is `strtoul` reduced mod 2^32 (saturating at 2^64).
   NOT narrowed: `int best_gap_size = max_size` and `int gap_size = end - start` in
-  `find_gap` are the identity for banks below 2 GiB with `gap.start ≤ gap.end`
+  `find_gap` are the identity for banks below 1 GiB (the bound used by the theorems) with `gap.start ≤ gap.end`
   (`Proofs/Wave.lean` proves the latter for every reachable bank); larger banks are outside
   the model.  `unsigned long` members (`max_size`, `current_size`, `bank_size`, gaps) are `Nat`.
 -/
